@@ -164,7 +164,29 @@ pub fn maintenance() {
     a.m.meld(&b.m).expect("meld");
     assert!(a.m.read(None).unwrap() == d0, "meld without refresh changed the document");
     assert!(state(&a.m) == st0, "meld without refresh changed the replica's state");
-    match sym::choose(4) {
+    match sym::choose(5) {
+        4 => {
+            // something unrelated staged through the per-object API, commit (resolves the arrays although they are not
+            // staged), then an edit of an array, commit, reload
+            let mut o = Map::new();
+            o.insert("v".to_string(), Value::from("n"));
+            a.m.update_object("b", o).expect("update_object");
+            let r1 = a.m.read(None).unwrap();
+            a.m.commit(None).expect("commit");
+            assert!(a.m.read(None).unwrap() == r1, "commit changed the document");
+            let mut d2 = r1.clone();
+            d2.remove("_id");
+            if let Some(Value::Array(items)) = d2.get_mut("items♭") {
+                items.push(json!({"_id": "late", "v": "x"}));
+            }
+            a.m.update(d2).expect("update");
+            let r2 = a.m.read(None).unwrap();
+            a.m.commit(None).expect("commit");
+            assert!(a.m.read(None).unwrap() == r2, "commit changed the document");
+            let mut a = a;
+            a.m.reload().expect("reload");
+            assert!(a.m.read(None).unwrap() == r2, "reload (nothing new in storage) changed the document");
+        }
         0 => {
             // nothing unapplied in storage: refresh and reload are no-ops for the document
             let mut a = a;
